@@ -81,9 +81,46 @@ impl Sub for ModelRoundTrip {
         300
     }
     fn strategy(&self, _tier: Tier) -> BoxedStrategy<ModelCase> {
-        (train_spec(6, true), vec(0u8..2, 0..=3), vec(0u8..8, 1..=6))
-            .prop_map(|(mut spec, b, a)| {
+        (train_spec(6, true), vec(0u8..2, 0..=3), vec(0u8..8, 1..=6), prop_oneof![1 => Just(0u32), 1 => any::<u32>()])
+            .prop_map(|(mut spec, b, a, bare)| {
                 spec.export_before_user = false;
+                // In half of the cases some templates lose their literal prefix and some cells become empty:
+                // feature strings may then be "" or "*" themselves (only this property's differential oracle
+                // is indifferent to what such strings mean elsewhere).
+                if bare != 0 {
+                    let strip = |t: &mut String, on: bool| {
+                        if on {
+                            if let Some((_, rest)) = t.split_once(':') {
+                                if !rest.is_empty() {
+                                    *t = rest.to_string();
+                                }
+                            }
+                        }
+                    };
+                    for (j, t) in spec.unigram_templates.iter_mut().enumerate() {
+                        strip(t, (bare >> j) & 1 == 1);
+                    }
+                    for (j, (l, r)) in spec.bigram_templates.iter_mut().enumerate() {
+                        strip(l, (bare >> (4 + j)) & 1 == 1);
+                        strip(r, (bare >> (4 + j)) & 1 == 1 || (bare >> 12) & 1 == 1);
+                    }
+                    for (i, row) in spec.lex.iter_mut().enumerate() {
+                        if (bare >> (16 + i % 8)) & 1 == 1 && !row.cells.is_empty() {
+                            let k = (i + (bare >> 24) as usize) % row.cells.len();
+                            row.cells[k] = String::new();
+                        }
+                    }
+                    if let Some(u) = spec.user.as_mut() {
+                        for (i, row) in u.iter_mut().enumerate() {
+                            if (bare >> (20 + i % 4)) & 1 == 1 && !row.cells.is_empty() {
+                                let k = (i + (bare >> 24) as usize) % row.cells.len();
+                                row.cells[k] = String::new();
+                            }
+                        }
+                    }
+                    // the corpus refers to seed rows by their rendered feature string: rebuild it
+                    spec.resync_corpus();
+                }
                 let nuser = spec.user.as_ref().map_or(0, |u| u.len());
                 let before = b.iter().map(|k| if *k == 0 { MOp::Gen } else { MOp::GenBigram }).collect();
                 let mut added = 0;
